@@ -1,3 +1,80 @@
-From ST Require Import Base.Outcome Fmt.Parser Fmt.Render Fmt.Sinks Fmt.RenderSpec.
-Theorem placeholder : True. Proof. exact I. Qed.
-Print Assumptions placeholder.
+(* Properties/C17.v — all output sinks emit the same bytes for the same format call.
+   Statements only; proofs in Fmt/SinksProofs.v.  The driver (Fmt/Render.v) yields the sequence
+   of append / append_char calls and its ending and nothing else, so it is parametric in the
+   writer by construction; a sink is an interpretation of that sequence (Fmt/Sinks.v).       *)
+From Coq Require Import NArith ZArith List.
+From ST Require Import Base.Outcome Base.Units Fmt.Parser Fmt.Render Fmt.RenderSpec Fmt.Sinks Fmt.SinksProofs.
+Import ListNotations.
+Local Open Scope N_scope.
+
+(* narrow_sinks_equal: ST::printf(FILE* ), ST::writef(narrow ostream) and the string sink's buffer
+   receive the same bytes — the concatenation of the calls — and the call ends the same way
+   (same exception, at the same point: what reached the stream before it is the same) *)
+Theorem narrow_sinks_equal : forall fmt args,
+  let d := driver fmt args in
+  format_to_stream StFile fmt args = (bytes_of (fst d), snd d) /\
+  format_to_stream StOstream fmt args = (bytes_of (fst d), snd d) /\
+  run_writer string_step d = (bytes_of (fst d), snd d).
+Proof. exact SinksProofs.narrow_sinks_equal. Qed.
+Print Assumptions narrow_sinks_equal.
+
+(* each narrow writer's append / append_char denote the same byte concatenation *)
+Theorem narrow_writers_denote : narrow_step string_step /\ narrow_step file_step /\ narrow_step ostream_step.
+Proof. exact (conj string_step_narrow (conj file_step_narrow ostream_step_narrow)). Qed.
+Print Assumptions narrow_writers_denote.
+
+(* whenever ST::format returns bytes, printf and writef wrote exactly those bytes *)
+Theorem format_equals_streams : forall fmt args raw,
+  format_to_string AssumeValid fmt args = Ok raw ->
+  format_to_stream StFile fmt args = (raw, Ok tt) /\ format_to_stream StOstream fmt args = (raw, Ok tt).
+Proof. exact SinksProofs.format_equals_streams. Qed.
+Print Assumptions format_equals_streams.
+
+(* and when ST::format throws a driver exception, so do they *)
+Theorem format_throws_streams : forall v fmt args x, x <> UnicodeError ->
+  format_to_string v fmt args = Throw x ->
+  snd (format_to_stream StFile fmt args) = Throw x /\ snd (format_to_stream StOstream fmt args) = Throw x.
+Proof. exact SinksProofs.format_throws_streams. Qed.
+Print Assumptions format_throws_streams.
+
+(* latin1_sink: format_latin_1 = the UTF-8 encoding of each byte of ST::format's output read as Latin-1 *)
+Theorem latin1_sink : forall fmt args raw,
+  format_to_string AssumeValid fmt args = Ok raw -> bytes_ok raw = true ->
+  format_to_latin1 fmt args = Ok (flat_map utf8_enc raw).
+Proof. exact SinksProofs.latin1_sink. Qed.
+Print Assumptions latin1_sink.
+
+(* wide_sink: under its hypothesis (every appended chunk well-formed on its own and below the
+   huge-buffer limit, every pad byte < 0x80) the wide stream receives the transcoding of the
+   bytes ST::format produces.  Without the hypothesis the statement is false of the model and of
+   the code: known finding wide-sink-per-chunk (witness below). *)
+Theorem wide_sink : forall w t, Forall (chunk_ok w) t ->
+  exists u, feed (wide_step w) [] t = (u, Ok tt) /\ transcode w (bytes_of t) = Some u.
+Proof. exact SinksProofs.wide_sink. Qed.
+Print Assumptions wide_sink.
+
+(* FULL STATEMENT without the hypothesis (false): ST::format("{}{}", "\xC3", "\xA9") is "é", the
+   wide sinks throw on the first chunk *)
+Theorem wide_sink_unconditional_refuted :
+  format_to_string CheckValidity (Some [123; 125; 123; 125]) [AStr [195]; AStr [169]] = Ok [195; 169] /\
+  transcode WWchar [195; 169] = Some [233] /\
+  format_to_stream (StWide WWchar) (Some [123; 125; 123; 125]) [AStr [195]; AStr [169]] = ([], Throw UnicodeError).
+Proof. exact SinksProofs.wide_sink_witness. Qed.
+Print Assumptions wide_sink_unconditional_refuted.
+
+(* insertion: os << s writes the string's bytes (char stream) / the reference transcoding of
+   well-formed text (wchar_t, char16_t, char32_t streams).
+   extraction (is >> s stores the token subject to the default validation) is modelled
+   (Sinks.extract_token / set_from_token) and checked by correspondence against the token
+   std::basic_string takes; the tokenisation is libstdc++'s, there is no theorem about it. *)
+Theorem insertion_partial : forall s,
+  insert_units CtChar s = s /\
+  (forall u, decode_utf8 s = Some u ->
+     insert_units CtChar32 s = u /\ insert_units CtWchar s = u /\
+     (forall v, encode_utf16 u = Some v -> insert_units CtChar16 s = v)).
+Proof. exact SinksProofs.insertion. Qed.
+Print Assumptions insertion_partial.
+
+(* non-vacuity of wide_sink's hypothesis *)
+Example chunk_ok_satisfiable : Forall (chunk_ok WChar16) [EApp [195; 169]; EPad 32 3; EApp [240; 159; 152; 128]].
+Proof. exact SinksProofs.chunk_ok_example. Qed.
